@@ -24,6 +24,18 @@ CHECKS = {
              "pairs in quick, 400 pairs x 6 configurations in thorough).",
         design_ref="3.1", technique="generated compile-fail witness programs judged by clang++/g++ -fsyntax-only",
         note=TRUST_W, engine="W"),
+    "C02": dict(
+        category="exploration",
+        text="Seeded expression trees (product, quotient, pow<-4..4>, root<2|3>, scaling by integer / rational magnitudes, the 32 prefixes) "
+             "over all library units discovered on each run: the dimension and magnitude exponents read out of the resulting type through probe "
+             "templates equal the exact algebraic model; every available spelling (quantity makers, singular names, symbols, constants, type "
+             "traits) denotes the same unit type; three random algebraic rewrites (re-ordering, re-grouping, split powers) of every pure tree are "
+             "the identical type; are_units_quantity_equivalent and unit_ratio agree with model equality / quotient on equal, near (factor 7/6, "
+             "exponent 1/6) and different pairs.  The premise of canonicalisation - that the three orderings are strict total orders - is checked "
+             "on extracted pairwise tables (base dimensions, magnitude bases incl. pi and 64-bit primes, ~85 unit-like types quick / ~250 "
+             "thorough) with the documented collision pairs excluded and shown to be rejected.  400 trees quick, 20000 (depth 4) thorough.",
+        design_ref="3.2", technique="static_assert witness programs with exponent read-out against an exact algebraic model + extracted ordering tables",
+        note=TRUST_W, engine="W"),
     "C03": dict(
         category="proof",
         text="Per instance (integral rep T, reduced factor N/D; grid of library unit ratios, powers of 2/10, "
